@@ -406,6 +406,35 @@ def load_on_reset(ctx):
             ctx.ob(P + ['C20'], 'RF9-lss', fname, site, 'COLssLoad and COLssInit on every path (%d traces)' % len(trs))
 
 
+def loaded_rate_used(ctx):
+    """node initialisation enables the CAN controller with the bit rate COLssLoad delivered (the stored LSS
+    configuration), not with the default of the node specification"""
+    m = ctx.m
+    f = 'CONodeInit'
+    pe = PEval(m, f)
+    pe.record_sets = False
+    pe.store_filter = lambda k, fld: False
+    pe.keep_prefixes = ('node->Baudrate', 'node->NodeId')
+    trs = pe.run({'node': 1, 'spec': 1, 'spec->Baudrate': 250000, 'spec->NodeId': 1, 'call:COLssLoad': 0, 'call:CODictInit': 5,
+                  'call:CODictObjInit': 0, 'post:COLssLoad': {'node->Baudrate': 500000, 'node->NodeId': 0x20}})
+    bad = None
+    seen = False
+    for t in trs:
+        for c in t.calls():
+            if c[1] == 'COIfCanEnable':
+                seen = True
+                if c[2][1] != 500000:
+                    bad = 'COIfCanEnable is called with %s, the stored configuration says 500000 (specification default 250000)' % c[2][1]
+    site = 'CONodeInit: CAN controller enabled with the loaded bit rate'
+    if not seen:
+        bad = 'COIfCanEnable is not called'
+    if bad:
+        ctx.ob(P, 'RF9-lss', f, site, None)
+        ctx.find(P, 'RF9-lss', f, 'loaded-rate', m.loc(f, m.funcs[f].line), bad)
+    else:
+        ctx.ob(P, 'RF9-lss', f, site, 'argument is node->Baudrate after COLssLoad')
+
+
 def run(ctx):
     m = ctx.m
     if 'COLssCheck' not in m.funcs:
@@ -417,3 +446,4 @@ def run(ctx):
     sequences(ctx, rows, mode_val)
     config_services(ctx, rows, mode_val)
     load_on_reset(ctx)
+    loaded_rate_used(ctx)
